@@ -292,6 +292,52 @@ func init() {
 			}
 			return r
 		},
+		// symDecimalLexical(s): s is in the RFC 7950 decimal64 lexical form
+		// (optional sign, digits, optional '.' digits).
+		"symDecimalLexical": func(p *Path, fr *frame, args []value) value {
+			if ss, ok := args[0].(*SymStr); ok && ss.flt != nil {
+				// %v of a float64: exponent form iff x != 0 and (|x| < 1e-4 or |x| >= 1e21);
+				// NaN/Inf render as words.
+				x := ss.flt
+				if ss.fltF {
+					return And(Not(fpUn(OFIsNaN, x)), Not(fpUn(OFIsInf, x)))
+				}
+				ax := fpUn(OFAbs, x)
+				hasExp := And(Not(fpCmp(OFEq, x, FP64(0))), Or(fpCmp(OFLt, ax, FP64(1e-4)), fpCmp(OFLe, FP64(1e21), ax)))
+				return And(Not(fpUn(OFIsNaN, x)), And(Not(fpUn(OFIsInf, x)), Not(hasExp)))
+			}
+			if ss, ok := args[0].(*SymStr); ok && ss.dec != nil {
+				return termTrue
+			}
+			ro, err := p.compileRe(`^[+-]?[0-9]+(\.[0-9]+)?$`, false)
+			if err != nil {
+				panic(unsupported{err.Error()})
+			}
+			if s, ok := args[0].(string); ok {
+				return Bool(ro.re.MatchString(s))
+			}
+			return p.matchTerm(ro.prog, p.runesOf(args[0]))
+		},
+		// symDecimalIs(s, v, signed): s is exactly the base-10 rendering of v
+		"symDecimalIs": func(p *Path, fr *frame, args []value) value {
+			v := args[1].(*Term)
+			signed := args[2].(*Term).c != 0
+			if ss, ok := args[0].(*SymStr); ok && ss.dec != nil && ss.taint == "" {
+				var x *Term
+				if ss.dec.signed {
+					x = SExt(ss.dec.x, 64)
+				} else {
+					x = ZExt(ss.dec.x, 64)
+				}
+				if ss.dec.signed != signed {
+					// renderings agree only on the common non-negative range
+					return And(Eq(x, v), Cmp(OSLe, BV(64, 0), v))
+				}
+				return Eq(x, v)
+			}
+			want := p.formatIntSym(v, signed)
+			return strEq(args[0], want)
+		},
 		// symStrEq(a, b): a == b as a single term
 		"symStrEq": func(p *Path, fr *frame, args []value) value { return strEq(args[0], args[1]) },
 	}
